@@ -271,6 +271,7 @@ Definition method_sem (m : string) : option sem :=
   (* names introduced by proposed_fixes/C15-second-arg-keywords.diff (absent on the pinned tree):
      reflected handlers that accept the torch function's keyword and apply it to `self` *)
   if String.eqb m "_add_second_arg" then Some (SemBin SAdd SelfRight true) else
+  if String.eqb m "_sub_second_arg" then Some (SemBin SSub SelfRight true) else
   if String.eqb m "_isclose_second_arg" then Some (SemBin SIsclose SelfRight true) else
   if String.eqb m "abs" then Some (SemFun "abs") else
   if String.eqb m "cholesky" then Some (SemFun "linalg.cholesky") else
@@ -328,6 +329,20 @@ Definition expected (f : string) : option esem :=
   if String.eqb f "torch.transpose" then Some (EFunF "transpose") else
   if String.eqb f "torch.unsqueeze" then Some (EFunF "unsqueeze") else
   None.
+
+(* the functions the property names: they must be registered (a dropped registration would make the
+   table theorems vacuous for that function and turn torch.f(op) into a NotImplementedError) *)
+Definition required_first : list string :=
+  ["torch.add"; "torch.sub"; "torch.mul"; "torch.div"; "torch.matmul"; "torch.diagonal"; "torch.logdet";
+   "torch.linalg.solve"; "torch.linalg.cholesky"; "torch.linalg.eigh"; "torch.linalg.eigvalsh"; "torch.linalg.svd";
+   "torch.linalg.solve_triangular"; "torch.inverse"; "torch.abs"; "torch.exp"; "torch.log"; "torch.sqrt";
+   "torch.sum"; "torch.prod"; "torch.squeeze"; "torch.unsqueeze"; "torch.transpose"; "torch.permute";
+   "torch.clone"; "torch.numel"; "torch.isclose"].
+(* operator second: Tensor @ Op, Tensor + Op, Tensor - Op, Tensor * Op -- as torch functions and as the
+   Tensor methods python's operators on a Tensor hand to __torch_function__ *)
+Definition required_second : list string :=
+  ["torch.add"; "torch.sub"; "torch.mul"; "torch.matmul";
+   "torch.Tensor.add"; "torch.Tensor.sub"; "torch.Tensor.mul"; "torch.Tensor.matmul"].
 
 (* commutative (with every keyword at its default) *)
 Definition comm (o : semop) : bool := match o with SAdd | SMul => true | _ => false end.
